@@ -102,7 +102,7 @@ def audit(prop: str, timeout: int = 900) -> dict:
 
 # ------------------------------------------------------------- generated model (translator) gate
 # properties whose theorem files contain `..._code_...` theorems about BBGen (the translation of the Python sources)
-GEN_PROPS = {"C02", "C03", "C04", "C10", "C11", "C12"}
+GEN_PROPS = {"C02", "C03", "C04", "C08", "C10", "C11", "C12"}
 
 
 def _lean_env() -> dict:
@@ -153,6 +153,7 @@ def gen_gate(prop: str, timeout: int = 1500) -> dict:
         (scratch / "BBGen" / "Gen.lean").write_text(r.stdout)
         chain = [("BBGen/Gen.lean", scratch / "BBGen" / "Gen.lean"),
                  ("BBProofs/GenEq.lean", LEAN / "BBProofs" / "GenEq.lean"),
+                 ("BBProofs/GenEq2.lean", LEAN / "BBProofs" / "GenEq2.lean"),
                  (f"BBProps/{prop}.lean", LEAN / "BBProps" / f"{prop}.lean")]
         for rel, srcp in chain:
             res["stage"] = rel
